@@ -817,11 +817,23 @@ def _constant_guided(inst, unit, fn, case, assertions, cap=600):
             key = name if isinstance(shape, Prim) else name + '.value'
             # the constants of the condition first, then the unit's declared representative inputs
             doms.append([shape.concretise(name, {key: v}) for v in vals] + list(shape.domain()[:24]))
-    n = 0
-    for combo in itertools.product(*doms):
-        n += 1
-        if n > cap:
-            break
+    # three sweeps: the product in written order (constants of the condition first), the product of the declared representative inputs
+    # alone, and seeded random combinations of both (the product order keeps the first inputs at their first value for a long time)
+    import random as _random
+    rng = _random.Random(20260928)
+    declared = [list(shape.domain()[:24]) or [None] for _, shape in inst.inputs]
+
+    def combos():
+        for src in (doms, declared):
+            for n, combo in enumerate(itertools.product(*src)):
+                if n >= cap:
+                    break
+                yield combo
+        for _ in range(cap):
+            yield tuple(rng.choice(d) for d in doms)
+        for _ in range(cap):
+            yield tuple(rng.choice(d) for d in declared)
+    for combo in combos():
         args = list(combo)
         try:
             out = native_outcome(unit, fn, args)
